@@ -55,10 +55,48 @@ def esc_value(r, t):
     return " ".join(ws)
 
 
+# Spellings of values of the numeric list types (opt-in: MasterGen(lists=p) / SourceGen(lists=p), p = share of the ints / floats
+# values written this way).  numbers_from_words joins the words, strips any nesting of enclosing ( ) / [ ] pairs and splits at
+# blanks, commas and semicolons; a quoted word contributes its content.  So one list has many spellings -- and the EMPTY list,
+# which has no plain spelling at all, is a perfectly legal value written `()`, `[]`, `""`, `","` ... (a user switches a list
+# parameter off that way).  (text, number of elements); every element is a small non-negative integer, so a value bound never
+# refuses it and the size arguments of the type decide alone whether a spelling is valid.
+LIST_SPELLINGS = [
+    ("()", 0), ("[]", 0), ('""', 0), ("''", 0), ('","', 0), ("(,)", 0), ("( )", 0), ("[ ]", 0), ("([])", 0), ('" "', 0),
+    ("(3)", 1), ("[4]", 1), ('"5"', 1), ("6,", 1),
+    ("(3, 4)", 2), ("[1,2]", 2), ("3,4", 2), ('"3 4"', 2), ("(1 2)", 2), ("[[5, 6]]", 2), ('"7;8"', 2),
+    ("(7, 8, 9)", 3), ("[1 2 3]", 3), ('"1,2" 3', 3),
+]
+
+
+def is_number_list(t):
+    return bool(t) and t.split("(")[0] in ("ints", "floats")
+
+
+def list_size_bounds(t):
+    """(least, most) number of elements the type expression t admits, read off its size arguments"""
+    import re
+    arg = dict(re.findall(r"(size|size_min|size_max)\s*=\s*(\d+)", t))
+    if "size" in arg:
+        return int(arg["size"]), int(arg["size"])
+    return int(arg.get("size_min", 0)), int(arg.get("size_max", 10 ** 9))
+
+
+def list_value(r, t, empty=0.5):
+    """a LIST_SPELLINGS text the numeric list type t accepts; the empty list in `empty` of the draws where t admits it"""
+    lo, hi = list_size_bounds(t)
+    ok = [s for s, k in LIST_SPELLINGS if lo <= k <= hi]
+    nil = [s for s, k in LIST_SPELLINGS if k == 0]
+    if lo == 0 and r.random() < empty:
+        return r.choice(nil)
+    return r.choice(ok)
+
+
 class MasterGen:
     def __init__(self, rng, depth=2, multiples=True, nested_multiples=False, noncanonical=True, disabled=True,
-                 further=True, types=None, deprecated=False, reopen=None, escapes=0):
+                 further=True, types=None, deprecated=False, reopen=None, escapes=0, lists=0):
         self.escapes = escapes
+        self.lists = lists
         self.deprecated = deprecated
         self.reopen = (__import__("os").environ.get("VERIF_REOPEN") == "1") if reopen is None else reopen
         self.rng = rng
@@ -77,6 +115,8 @@ class MasterGen:
         dv = r.choice(defaults if self.noncanonical else defaults[:1])
         if self.escapes and t in ESC_TYPES and r.random() < self.escapes:
             dv = esc_value(r, t)
+        if self.lists and is_number_list(t) and r.random() < self.lists:
+            dv = list_value(r, t, empty=0.25)
         mult = self.multiples and (self.nested_multiples or not in_multiple) and r.random() < 0.25
         opt = r.choice([None, None, True, False])
         if t and t.startswith("choice") and opt is False and "*" not in dv:
@@ -91,6 +131,8 @@ class MasterGen:
             node["further"] = [r.choice(TYPES[t][1] or [dv]) for _ in range(r.choice([1, 2]))]
             if self.escapes and t in ESC_TYPES and r.random() < self.escapes:
                 node["further"][-1] = esc_value(r, t)
+            if self.lists and is_number_list(t) and r.random() < self.lists:
+                node["further"][-1] = list_value(r, t)
         if mult and self.disabled and not node["dis"] and r.random() < 0.25:
             # a commented-out example instance next to the declaration (`!name = value`): inert
             node["dis_further"] = [r.choice(TYPES[t][1] or [dv])]
@@ -316,8 +358,9 @@ def param_paths(nodes, prefix="", out=None, active_only=True):
 class SourceGen:
     """a source text for a master tree: values for some parameters, plus noise"""
 
-    def __init__(self, rng, valid_only=False, unknown=True, disabled=True, variables=False, escapes=0):
+    def __init__(self, rng, valid_only=False, unknown=True, disabled=True, variables=False, escapes=0, lists=0):
         self.escapes = escapes
+        self.lists = lists
         self.rng = rng
         self.valid_only = valid_only
         self.unknown = unknown
@@ -329,6 +372,8 @@ class SourceGen:
         d, ok, bad = TYPES[node["type"]]
         if self.escapes and node["type"] in ESC_TYPES and r.random() < self.escapes:
             return esc_value(r, node["type"])
+        if self.lists and is_number_list(node["type"]) and r.random() < self.lists:
+            return list_value(r, node["type"])
         if node["type"] and node["type"].startswith("choice") and r.random() < 0.85:
             alts = [w.lstrip("*") for w in node["default"].split()]
             k = r.random()
